@@ -347,6 +347,17 @@ def attrOffenders (tbl : List (String × List AStep)) : List String :=
   (tbl.filter fun m => !(covered [] m.2) ||
     !((m.2.flatMap stepWrites).all fun p => w.all fun q => !(p.1 == q.1) || p.2 == q.2)).map (·.1)
 
+/-- on a network without links `set_link_attribute` iterates over an empty edge sequence: nothing
+is stored, the attribute never comes into existence.  The table of such an object is the class
+table with every write dropped. -/
+def isRead : AStep → Bool
+  | .use _ => true
+  | .other _ => true
+  | _ => false
+
+def linkless (tbl : List (String × List AStep)) : List (String × List AStep) :=
+  tbl.map fun m => (m.1, m.2.filter isRead)
+
 /-- slots sorted by first appearance, for the driver -/
 def showSlots (st : AState) : List (String × Nat) :=
   st.slots.reverse.foldl (fun acc p =>
